@@ -481,6 +481,21 @@ pub fn c06_cap_assign_notifies() {
 pub(crate) fn stub_clear_queue_unreachable<B>(_p: &mut Prioritize, _b: &mut Buffer<Frame<B>>, _s: &mut store::Ptr) {
     panic!("UNREACHABLE-STUB Prioritize::clear_queue")
 }
+/// Drop-free model of `Prioritize::clear_queue` for the *callers'* obligations: identical
+/// statements, except that popped frames are forgotten instead of dropped (the drop glue
+/// of `Frame` - HeaderMap buckets, Bytes vtables - exhausts the solver: measured 34k VCCs).
+pub(crate) fn stub_clear_queue_no_drop<B>(this: &mut Prioritize, buffer: &mut Buffer<Frame<B>>, stream: &mut store::Ptr) {
+    while let Some(frame) = stream.pending_send.pop_front(buffer) {
+        std::mem::forget(frame);
+    }
+    stream.buffered_send_data = 0;
+    stream.requested_send_capacity = 0;
+    if let InFlightData::DataFrame(key) = this.in_flight_data_frame {
+        if stream.key() == key {
+            this.in_flight_data_frame = InFlightData::Drop;
+        }
+    }
+}
 pub(crate) fn stub_reclaim_all_unreachable(_p: &mut Prioritize, _s: &mut store::Ptr, _c: &mut Counts) {
     panic!("UNREACHABLE-STUB Prioritize::reclaim_all_capacity")
 }
